@@ -493,6 +493,68 @@ func twoInstancesBody() func() {
 	}
 }
 
+// burst (seed c13-5): the timer catch event is listening; n signals that match nothing are handed
+// to the instance back-to-back and the clock is moved past the due time, either right behind them
+// from the same goroutine or from a second goroutine at once (the node's inbox holds 3 messages).
+// The firing the token was listening for must still make it continue, exactly once.
+func burstBody(d tdef, n int, concurrent bool) func() {
+	g := drv.NewGraph(fmt.Sprintf("c13b_%s", d.name))
+	s, c, t, e := g.Add(drv.Start, "start"), g.Add(drv.Catch, "cT"), g.Add(drv.Task, "t"), g.Add(drv.End, "end")
+	c.Defs = []drv.EventDef{{Kind: "timer", Sub: d.sub, Ref: d.text}}
+	g.Link(s, c, nil)
+	g.Link(c, t, nil)
+	g.Link(t, e, nil)
+	defs := g.Parse()
+	return func() {
+		sig := "C13/burst"
+		r := drv.Open(g, defs, drv.OpenOpts{Timer: true})
+		var w *drv.Wait
+		r.AfterStart = func() { w = r.WaitComplete(nil) }
+		r.StartAll()
+		verifrt.WaitIdle()
+		if r.Listening["cT"] != 1 {
+			h.Fail(sig+"/listening", "%s: the timer catch event is not listening after start", d.name)
+			return
+		}
+		done := 0
+		due := base.Add(hour + time.Minute)
+		if concurrent {
+			go func() { r.Clock.Set(due); done++ }()
+		}
+		go func() {
+			for i := 0; i < n; i++ {
+				r.Signal("unrelated")
+			}
+			if !concurrent {
+				r.Clock.Set(due)
+			}
+			done++
+		}()
+		verifrt.WaitIdle()
+		want := 1
+		if concurrent {
+			want = 2
+		}
+		if done != want {
+			h.Fail(sig+"/delivery-returns", "%s: %d of %d environment goroutines (signals, clock) have returned", d.name, done, want)
+			return
+		}
+		if got := r.Requests("t"); got != 1 {
+			clause := "continues-too-often"
+			if got < 1 {
+				clause = "does-not-continue"
+			}
+			h.Fail(sig+"/"+clause, "%s %q: %d unrelated signals were delivered around the moment the clock reached the due time; the task after the timer catch event was requested %d times, want 1", d.name, d.text, n, got)
+			return
+		}
+		r.Answer(r.Pending("t"))
+		verifrt.WaitIdle()
+		if w == nil || !w.Returned || !w.Result {
+			h.Fail(sig+"/completes", "%s: the instance does not complete after the timer fired and the task was answered; live: %v", d.name, verifrt.LiveRepoGoroutines())
+		}
+	}
+}
+
 func init() {
 	h.Register("C13", func(tier string) ([]*h.Scn, []*h.Plain) {
 		var out []*h.Scn
@@ -526,6 +588,22 @@ func init() {
 			// the first is being delivered (the body is C11's, with the clock as the deliverer)
 			body := c11.StaggeredBody("timer", func(r *drv.Run) { r.Clock.Add(hour) }, drv.EventDef{Kind: "timer", Sub: "timeCycle", Ref: "R/PT1H"}, true)
 			out = append(out, &h.Scn{Name: fmt.Sprintf("C13/staggered/timer-cycle/d%d", d), Body: body, Opts: verifrt.Options{Bound: d, UseCache: true}, Weight: 50 * (1 + 30*d), Split: 1 + 3*d})
+		}
+		for _, d := range defs() {
+			d := d
+			if d.name != "duration" && d.name != "date" && d.name != "R1" {
+				continue
+			}
+			for _, n := range []int{3, 4, 6} {
+				for _, conc := range []bool{false, true} {
+					for _, b := range []int{0, 1} {
+						if b == 1 && (n == 3 || (d.name != "duration" && !thorough)) {
+							continue
+						}
+						out = append(out, &h.Scn{Name: fmt.Sprintf("C13/burst/%s/n%d/concurrent=%v/d%d", d.name, n, conc, b), Body: burstBody(d, n, conc), Opts: verifrt.Options{Bound: b, UseCache: true}, Weight: 100 * (1 + 20*b), Split: 1 + 3*b})
+					}
+				}
+			}
 		}
 		for _, d := range []int{0, 1} {
 			out = append(out, &h.Scn{Name: fmt.Sprintf("C13/two-instances/d%d", d), Body: twoInstancesBody(), Opts: verifrt.Options{Bound: d, UseCache: true}, Weight: 300 * (1 + 10*d), Split: 1 + 3*d})
